@@ -460,8 +460,9 @@ def run(ctx):
                     # interval certificate |m128_sin - sin| <= 2e-6, C12 R-APPROX) the two builds must be the same real function
                     from harness import Harness
                     import tables
-                    Hx = Harness(Fb, {'extra_leaf': {'sse2::m128_sin': lambda I, fr, callee, args, dest, argops, line:
-                                                     tables.vec([tm.mk('sin', x) for x in tables.lanes(I, args[0], 4, 4)], 4)}})
+                    import approx
+                    sin_leaf = lambda I, fr, callee, args, dest, argops, line: tables.vec([tm.mk('sin', x) for x in tables.lanes(I, args[0], 4, 4)], 4)
+                    Hx = Harness(Fb, {'extra_leaf': {hn: sin_leaf for hn in (approx.sin_helpers(Fb) or ['sse2::m128_sin'])}})
                     rx = Hx.run(it['key'])
                     ox = root_outputs(Fb, rx, Fb.body(it['key'])) if not rx.abort else None
                     if ox is not None and len(ox) == len(os_) and all(x is not None for x in ox):
